@@ -382,7 +382,7 @@ def run(ctx):
                 raise v
             raise Violation('carriage-return-translated-by-file-route', case, v.detail)
 
-    hyp_run(ctx, res, cases(), body, ctx.pick(500, 2500), label='roundtrip')
+    hyp_run(ctx, res, cases(), body, ctx.pick(1200, 3000), label='roundtrip')
     hyp_run(ctx, res, cases(cr=True), cr_body, ctx.pick(100, 500), label='carriage-return')
     hyp_run(ctx, res, cases(phrases=["'s", "'", " a''b", "' -- y"]), body, ctx.pick(60, 300), label='phrase-quote')
     return res
